@@ -62,7 +62,7 @@ Print Assumptions C11_nothing_after_finish.
 
 (* non-vacuity: the race schedule on the present code ends with everything closed *)
 Theorem C11_example_now :
-  let s := run (cfg_now None) (sched_race ++ [C; C; C; C]) (init 1 [op_ok 0 2]) in
+  let s := run (cfg_now None) (sched_race ++ [C; C; C; C; C; C]) (init 1 [op_ok 0 2]) in
   cp s = CDone /\ has_to_stop s = false /\ trace s = [ScStart 0; ScFinish 0 SUCCESS].
 Proof. exact race_schedule_now. Qed.
 Print Assumptions C11_example_now.
